@@ -25,7 +25,29 @@ pub fn run(p: &Prog, cfg: &Cfg, rep: &mut Report) {
         }
     };
     for kind in Kind::ENUMS {
-        let Some(strat) = doc_strategy(&handlers, kind, &names) else { continue };
+        let Some(strat) = doc_strategy(&handlers, kind, &names) else {
+            // no part declares a message of this kind: the contract-level message still exists
+            // and must refuse every document with a decoding error (never panic)
+            if let Some(wrapper) = p.wrappers.get(&kind) {
+                for text in ["{\"anything\":{}}", "{\"a\":1}", "{}", "{\"a\":{},\"b\":{}}", "[]", "null", "\"x\"", "{\"\":{}}"] {
+                    rep.evaluations += 1;
+                    rep.class("doc:kind-without-messages");
+                    rep.nontrivial(&(&p.model.id, kind, text));
+                    let w = std::panic::catch_unwind(std::panic::AssertUnwindSafe(|| wrapper.from_json(text.as_bytes())));
+                    let bad = match w {
+                        Err(_) => Some(viol("panic:kind-without-messages", "decoding the contract-level message panicked", json!({"doc": text, "kind": kind.attr()}))),
+                        Ok(Ok(_)) => Some(viol("wrapper-accepts:kind-without-messages", "a contract-level message without any variant accepted a document", json!({"doc": text, "kind": kind.attr()}))),
+                        Ok(Err(_)) => None,
+                    };
+                    if let Some(bad) = bad {
+                        if !fail_fixed(rep, cfg, &p.model.id, &format!("docs:{}", kind.attr()), json!({"text": text}), bad) {
+                            return;
+                        }
+                    }
+                }
+            }
+            continue;
+        };
         let wrapper = &p.wrappers[&kind];
         // every name some part accepts for this kind
         let supported: Vec<String> = handlers.iter().filter(|h| h.kind == kind).map(|h| names[&h.id].clone()).collect();
